@@ -91,7 +91,7 @@ fn alias_line(r: &mut Rng, g: &RawGen, dec: &str) -> String {
     format!("{} {} {}", g.number(r, dec), w, g.number(r, dec))
 }
 
-fn rule_line(r: &mut Rng, g: &RawGen, dec: &str) -> String {
+pub fn rule_line(r: &mut Rng, g: &RawGen, dec: &str) -> String {
     let kw = *r.pick(&["zork", "blip", "quux", "frob"]);
     match r.below(5) { 0 => format!("{} {}", kw, g.number(r, dec)), 1 => format!("{} {}", g.number(r, dec), kw), 2 => format!("{} {}", kw, r.pick(NAME_WORDS)), 3 => format!("{} {}", g.money(r, dec), kw), _ => format!("{} {}% {}", kw, r.below(100), kw) }
 }
